@@ -261,6 +261,7 @@ def hows_for(g, S):
             out.append(("atomic", None))
     if has_rt and sp in ("storage_r", "storage_rw"):
         out.append(("array_length", None))
+    out.append(("addr", None))
     return out
 
 
@@ -598,7 +599,7 @@ def push_cases(rng, n):
             S["globals"].append({"name": "ub", "space": "uniform", "group": "0", "binding": "0", "ty": VEC4})
         if ty is not None:
             S["globals"].append({"name": "pc", "space": "push", "ty": ty})
-        acc = [{"k": "access", "g": "pc", "how": "load"}] if ty is not None else []
+        acc = [{"k": "access", "g": "pc", "how": rng.choice(["load", "load", "addr"])}] if ty is not None else []
         # helper chain of depth 2: outer (touches no global) -> inner (reads pc)
         S["functions"].append({"name": "inner", "ret": rng.random() < 0.5, "body": list(acc)})
         S["functions"].append({"name": "outer", "ret": rng.random() < 0.5, "body": [{"k": "call", "f": "inner", "expr": True}]})
